@@ -91,7 +91,10 @@ def gen_broker(repo):
 
     ch = strip_comments(read(repo, "broker/src/broker/channel.rs"))
     out += f"def brokerLowCapacity : Nat := {const_int(ch, 'LOW_CAPACITY', 'channel.rs')}\n"
-    out += f"def brokerFifoSize : Nat := {const_int(br, 'FIFO_SIZE', 'broker.rs')}\n\n"
+    out += f"def brokerFifoSize : Nat := {const_int(br, 'FIFO_SIZE', 'broker.rs')}\n"
+    est = strip_comments(read(repo, "aldrin/src/low_level/channel/established.rs"))
+    out += "/-- the client-side `Receiver` tops its capacity up to the maximum when it is at or below this mark -/\n"
+    out += f"def clientLowCapacity : Nat := {const_int(est, 'LOW_CAPACITY', 'established.rs')}\n\n"
 
     # process_loop_result: order of the pop_* calls
     body = fn_body(br, "process_loop_result", "broker.rs")
